@@ -58,6 +58,14 @@ def oracle_content(case, fs, progs, t, user, stack=()):
     if any(fs.get(f) is not None for f in s.get("ifcreate", [])):
         return ("fail",)
     built = {}
+    for dfile in s.get("cond", []):
+        if fs.get(dfile) is not None:
+            r = oracle_content(case, fs, progs, dfile, user, stack + (t,))
+            if r[0] == "fail":
+                return ("fail",)
+            built[dfile] = r[1]
+        else:
+            built[dfile] = None
     for c in s.get("ifchange", []):
         for dfile in c:
             r = oracle_content(case, fs, progs, dfile, user, stack + (t,))
@@ -84,7 +92,7 @@ def oracle_content(case, fs, progs, t, user, stack=()):
 
 
 def declared(s):
-    return set(x for c in s.get("ifchange", []) for x in c)
+    return set(x for c in s.get("ifchange", []) for x in c) | set(s.get("cond", []))
 
 
 def is_user_token(tok):
@@ -114,7 +122,7 @@ def closure(case, fs, progs, ts, user=()):
             do = next((c for c in case.rules[t] if fs.get(c) is not None), None)
             if do is not None:
                 s = progs.get((int(fs[do]) - 3) // 2, {})
-                todo += list(declared(s))
+                todo += [x for c in s.get("ifchange", []) for x in c] + [x for x in s.get("cond", []) if fs.get(x) is not None]
     return seen
 
 
@@ -126,6 +134,7 @@ def monitors(case, real, want):
     out = []
     progs = {}
     user_files = {}            # file id -> token written by the user (files redo must never touch)
+    hidden = {}
     prev = None
     wb = well_behaved(case)
     last_ood = None
@@ -139,8 +148,14 @@ def monitors(case, real, want):
         elif k in ("w", "wp"):
             user_files[o[1]] = str(2 * o[2] + 3)
             last_ood = None
-        elif k == "r":
+        elif k in ("r", "h"):
+            if k == "h" and o[1] in user_files:
+                hidden[o[1]] = user_files[o[1]]
             user_files.pop(o[1], None)
+            last_ood = None
+        elif k == "u":
+            if o[1] in hidden and o[1] not in user_files and s["fs"].get(o[1]) == hidden[o[1]]:
+                user_files[o[1]] = hidden.pop(o[1])
             last_ood = None
         elif k == "m":
             last_ood = None
